@@ -133,6 +133,9 @@ impl R2ROperator<Triple, Vec<PhysicalOperator>, Vec<(String, String)>> for Simpl
     }
 
     fn add(&mut self, data: Triple) {
+        // A raw window triple that equals a triple derived in the previous cycle is raw from
+        // now on: materialize() must not evict it together with last cycle's derivations.
+        self.derived_triples.retain(|t| t != &data);
         self.item.add_triple(data);
     }
 
